@@ -13,7 +13,7 @@ Import ListNotations.
 
 (** [LatexWalker.parse_content(parser, token_reader at pos, parsing_state)] *)
 Definition new_api (s : str) (tol : bool) (cx : context) (t : task) : res out :=
-  parse_content tol (run s tol cx (parse_fuel s) t).
+  parse_content tol (run s tol cx (parse_fuel s cx) t).
 
 (** ** The pylatexenc-3 parser objects *)
 
